@@ -163,8 +163,14 @@ def check(rep, tier, seed):
     # bytes must be exactly those of the library writer (which are compared with the model above and loaded by numpy below)
     from common import run_cli_many, text_spectrum
     oj, ometa = [], []
-    for k, sh in enumerate([[3], [2, 3], [4, 1, 2], [9, 7]]):
+    # ... spectra of hundreds to thousands of fractional values among them: their bytes hold line feeds (3.25 is 0x400A000000000000)
+    # and exceed the buffers standard output sits behind (a line-buffered 1 KiB writer, a 64 KiB pipe)
+    for k, sh in enumerate([[3], [2, 3], [4, 1, 2], [9, 7], [300], [17, 19], [2100], [9000], [3, 3001]]):
         ivals = [str(rng.randrange(0, 1000)) for _ in range(elements(sh))]
+        if elements(sh) >= 300:
+            ivals = [str(rng.randrange(0, 1024) / 16) for _ in range(elements(sh))]
+            for j in (0, 7, elements(sh) // 2, elements(sh) - 150):
+                ivals[j] = "3.25"
         txt = text_spectrum(sh, ivals)
         fresh, stale = os.path.join(d, "o_fresh_%d.npy" % k), os.path.join(d, "o_stale_%d.npy" % k)
         open(stale, "wb").write(b"\x93NUMPY" + bytes(5000))
